@@ -32,7 +32,16 @@ def describe(v, depth=0, call=True):
         tag = v.__dict__.get('tag', None)
         if isinstance(v, type) and issubclass(v, BaseException):
             return ('exc-cls', v.__name__)
-        return ('cls', describe(tag, depth + 1, call), tuple(sorted(k for k in v.__dict__ if not k.startswith('_'))))
+        attrs = []
+        for k in sorted(v.__dict__):
+            if k.startswith('__') and k.endswith('__'):
+                continue
+            a = v.__dict__[k]
+            if a is None or isinstance(a, (bool, int, float, complex, str, bytes, tuple)):
+                attrs.append((k, describe(a, depth + 1, False)))       # the value a class attribute holds is behaviour, not a reflective view
+            elif not k.startswith('_'):
+                attrs.append((k,))
+        return ('cls', describe(tag, depth + 1, call), tuple(attrs))
     if isinstance(v, BaseException):
         return ('exc', type(v).__name__, describe(v.args, depth + 1, call))
     if isinstance(v, (types.FunctionType, types.BuiltinFunctionType, types.MethodType)):
